@@ -5,8 +5,8 @@
 set -e
 n="$1"; base="${2:-main}"; [ -n "$n" ] || { echo usage: merge_ws.sh name; exit 2; }
 echo "== repo commits on ws-$n:"
-git -C /repo log --oneline --reverse $base..ws-$n
-for c in $(git -C /repo log --format=%h --reverse $base..ws-$n); do
+git -C /repo log --oneline --reverse --cherry-pick --right-only --no-merges $base...ws-$n
+for c in $(git -C /repo log --format=%h --reverse --cherry-pick --right-only --no-merges $base...ws-$n); do
   msg=$(git -C /repo log -1 --format=%s $c)
   case "$msg" in
     fix:*) echo "cherry-pick $c $msg"; git -C /repo cherry-pick $c
